@@ -56,7 +56,7 @@ def list_killpoints(seed: int, tier: str, force_cls: str | None = None) -> dict:
         trace_plan = {"prop": "C11", "world": world, "Tmax": T, "lifetimes": [{"route": "construct", "ops": [{"op": "solve_to", "it": T}], "writer": {"mode": "lazy"}}]}
         run = execute(trace_plan, os.path.join(root, "trace"))
         h = run.hist["lifetimes"][0]
-        seams = [tuple(e) for e in h["events"] if e[0] in ("sweep", "save_enter", "save_exit", "solve_return")]
+        seams = [tuple(e) for e in h["events"] if e[0] in ("sweep", "save_enter", "mgr_save_return", "save_exit", "solve_return")]
         started = [s["step"] for s in h["saves"] if s["started"]]
     finally:
         shutil.rmtree(root, ignore_errors=True)
@@ -68,7 +68,7 @@ def list_killpoints(seed: int, tier: str, force_cls: str | None = None) -> dict:
     inflight = False
     seen_saves = set()
     for sm in seams:
-        if sm[0] == "save_exit" and sm[1] in started and sm[1] not in seen_saves:
+        if sm[0] in ("mgr_save_return", "save_exit") and sm[1] in started and sm[1] not in seen_saves:
             inflight = True
             seen_saves.add(sm[1])
         if asyn and inflight:
